@@ -426,6 +426,8 @@ pub fn expand_match_packet(repo: &str, macro_file: &str, block: &mut syn::Block)
 struct SelectArm {
     pat: syn::Pat,
     fut: syn::Expr,
+    /// `pat = fut, if pre => body`: the arm takes part only when `pre` holds at entry
+    pre: Option<syn::Expr>,
     body: syn::Expr,
 }
 struct SelectBody {
@@ -449,8 +451,11 @@ impl syn::parse::Parse for SelectBody {
             let pat = syn::Pat::parse_single(input)?;
             input.parse::<syn::Token![=]>()?;
             let fut: syn::Expr = input.parse()?;
+            let mut pre = None;
             if input.peek(syn::Token![,]) {
-                return Err(input.error("unsupported: select! arm precondition"));
+                input.parse::<syn::Token![,]>()?;
+                input.parse::<syn::Token![if]>()?;
+                pre = Some(input.parse::<syn::Expr>()?);
             }
             input.parse::<syn::Token![=>]>()?;
             let body: syn::Expr = if input.peek(syn::token::Brace) {
@@ -462,7 +467,7 @@ impl syn::parse::Parse for SelectBody {
             if input.peek(syn::Token![,]) {
                 input.parse::<syn::Token![,]>()?;
             }
-            arms.push(SelectArm { pat, fut, body });
+            arms.push(SelectArm { pat, fut, pre, body });
         }
         if arms.len() < 2 {
             return Err(input.error("select! with fewer than two arms"));
@@ -479,6 +484,9 @@ fn select_to_expr_poll(ts: TokenStream) -> Result<syn::Expr, String> {
     let n = sb.arms.len();
     if n > 3 {
         return Err("unsupported: select! with more than three arms (select_poll)".into());
+    }
+    if sb.arms.iter().any(|a| a.pre.is_some()) {
+        return Err("unsupported: select! arm precondition (select_poll)".into());
     }
     let biased = sb.biased;
     let mut readies: Vec<syn::Stmt> = vec![];
@@ -497,7 +505,7 @@ fn select_to_expr_poll(ts: TokenStream) -> Result<syn::Expr, String> {
     let pick = syn::Ident::new(&format!("vx_select_pick{n}"), proc_macro2::Span::call_site());
     let mut acc: Option<syn::Expr> = None;
     for (i, arm) in sb.arms.into_iter().enumerate().rev() {
-        let SelectArm { pat, fut, body } = arm;
+        let SelectArm { pat, fut, body, .. } = arm;
         let this: syn::Block = syn::parse_quote!({ let #pat = #fut; #body });
         acc = Some(match acc {
             None => syn::Expr::Block(syn::ExprBlock { attrs: vec![], label: None, block: this }),
@@ -535,8 +543,12 @@ fn select_to_expr(ts: TokenStream, cancel: &[String]) -> Result<syn::Expr, Strin
     let mut acc: Option<syn::Expr> = None;
     let losers: Vec<Option<syn::Stmt>> = sb.arms.iter().map(|a| cancelled_stmt(&a.fut, cancel)).collect();
     let n = sb.arms.len();
+    if sb.arms.last().map(|a| a.pre.is_some()).unwrap_or(false) {
+        // every arm could be disabled then (tokio panics without an `else` branch): not modelled
+        return Err("unsupported: select! whose last arm has a precondition".into());
+    }
     for (i, arm) in sb.arms.into_iter().enumerate().rev() {
-        let SelectArm { pat, fut, body } = arm;
+        let SelectArm { pat, fut, pre, body } = arm;
         // the other arms ran until this one completed: each modelled loser stops between two iterations of its loop
         let lost: Vec<&syn::Stmt> = (0..n).filter(|j| *j != i).filter_map(|j| losers[j].as_ref()).collect();
         let this: syn::Expr = syn::parse_quote!({ #(#lost)* let #pat = #fut; #body });
@@ -549,7 +561,11 @@ fn select_to_expr(ts: TokenStream, cancel: &[String]) -> Result<syn::Expr, Strin
                     syn::Expr::Block(b) if b.label.is_none() => b.block,
                     other => syn::parse_quote!({ #other }),
                 };
-                syn::parse_quote!(if vx_select_nondet() #tblock else #rest_block)
+                match pre {
+                    // a disabled arm never wins
+                    Some(c) => syn::parse_quote!(if (#c) && vx_select_nondet() #tblock else #rest_block),
+                    None => syn::parse_quote!(if vx_select_nondet() #tblock else #rest_block),
+                }
             }
         });
     }
